@@ -1,4 +1,374 @@
-/- C10 — model and specification (stub; see HACKING.md) -/
+/-
+  C10 — symmetry-operator strings are parsed and printed exactly.
+
+  Model of (text as `List Char`, translations exact in `Rat`; Python computes the same expressions in doubles):
+    SymmetryElement._partition        (dsrmath.py)   -> `partitionAt`, `partitionModel`
+    SymmetryElement._float            (dsrmath.py)   -> `pyFloat` (CPython `float(str)`), `evalFrac` (the `eval` branch), `floatModel`
+    SymmetryElement._parse_line       (dsrmath.py)   -> `normalise`, `parseComp`
+    SymmetryElement.__init__          (dsrmath.py)   -> `parseOp`   (Matrix(lines).transposed read through `matrix[i, j]` is row i, column j of `lines`)
+    SymmetryElement.to_shelxl         (dsrmath.py)   -> `rowText`, `toShelxl` (generic in the number formatter; `fmtDec` models `str(float)`)
+    SymmetryElement.__eq__            (dsrmath.py)   -> `eqModel`
+    SYMM._parse_line                  (cards.py)     -> `splitWs`, `splitComma`, `symmCard`
+  Specification (code independent): the grammar `Item`/`Numeral`, `print`, `denote`, `Relayout`, `LatticeEq`.
+
+  Domain of the model of `float()`/`eval`: strings over the alphabet of the grammar
+  (digits . / + - X Y Z, blanks, lower case x y z). On that alphabet CPython's `float()` accepts exactly
+  `[+-] digits [. digits]` / `[+-] . digits` (no exponent, `inf`, `nan`, `_` can be spelled). `eval` of anything
+  that is not `signs digits / digits` is reported as `Err.unmodelled` (Python: SyntaxError, or a value for
+  expressions such as `1/2/3`, `1/2-1/4`, which are outside SHELXL syntax).
+-/
 namespace Shelx.C10
+
+inductive Err
+  | valueError        -- not used by `_float` (it swallows it); kept for the enum on the wire
+  | syntaxError       -- `eval` of a malformed fraction
+  | zeroDivision      -- `eval('1./0.')`
+  | noneTranslation   -- `_float` returned `None` (no exception in Python: the operator carries `None`)
+  | unmodelled        -- `eval` of an expression outside `signs digits / digits`
+deriving DecidableEq, Repr
+
+/-! ### Model: text helpers -/
+
+/-- `symm.upper().replace(' ', '')` (ASCII; the alphabet of the grammar has no other letters) -/
+def normalise (s : List Char) : List Char := (s.map Char.toUpper).filter (fun c => c ≠ ' ')
+
+/-- `str.partition(c)`: `none` when `c` does not occur, else (text before the first `c`, text after it) -/
+def partitionAt (c : Char) : List Char → Option (List Char × List Char)
+  | [] => none
+  | h :: t => if h = c then some ([], t) else (partitionAt c t).map fun p => (h :: p.1, p.2)
+
+/-- `.replace('+', '')` -/
+def removePlus (s : List Char) : List Char := s.filter (fun c => c ≠ '+')
+
+/-- `_partition(symm, char)` -/
+def partitionModel (symm : List Char) (c : Char) : Int × List Char :=
+  match partitionAt c symm with
+  | none => (0, symm)
+  | some (pre, post) =>
+    let sign := match pre.getLast? with
+      | none => '+'
+      | some ch => ch
+    if sign = '-' then (-1, pre.dropLast ++ post) else (1, removePlus (pre ++ post))
+
+/-! ### Model: numbers -/
+
+def digitVal (c : Char) : Option Nat :=
+  if '0' ≤ c ∧ c ≤ '9' then some (c.toNat - 48) else none
+
+/-- longest prefix of decimal digits (their values) and the rest -/
+def spanDigits : List Char → List Nat × List Char
+  | [] => ([], [])
+  | c :: t => match digitVal c with
+    | some d => let r := spanDigits t; (d :: r.1, r.2)
+    | none => ([], c :: t)
+
+def natOfDigits (ds : List Nat) : Nat := ds.foldl (fun a d => 10 * a + d) 0
+
+/-- value of the digits after the decimal point -/
+def fracOfDigits : List Nat → Rat
+  | [] => 0
+  | d :: ds => ((d : Rat) + fracOfDigits ds) / 10
+
+/-- CPython `float(s)` for an unsigned decimal: `digits`, `digits.`, `digits.digits`, `.digits`; `none` = ValueError -/
+def pyFloatUnsigned (s : List Char) : Option Rat :=
+  let ip := spanDigits s
+  match ip.2 with
+  | [] => if ip.1 = [] then none else some (natOfDigits ip.1 : Nat)
+  | '.' :: r =>
+    let fp := spanDigits r
+    if fp.2 ≠ [] then none
+    else if ip.1 = [] ∧ fp.1 = [] then none
+    else some ((natOfDigits ip.1 : Nat) + fracOfDigits fp.1)
+  | _ => none
+
+/-- CPython `float(s)` on the alphabet of the grammar; `none` = ValueError -/
+def pyFloat (s : List Char) : Option Rat :=
+  match s with
+  | '+' :: r => pyFloatUnsigned r
+  | '-' :: r => (pyFloatUnsigned r).map fun x => -x
+  | _ => pyFloatUnsigned s
+
+/-- `eval` of `digits / digits` (after `replace('/', './') + '.'`: `1./2.`) -/
+def evalFracUnsigned (s : List Char) : Except Err Rat :=
+  let n := spanDigits s
+  match n.2 with
+  | '/' :: r =>
+    let d := spanDigits r
+    if n.1 = [] ∨ d.1 = [] then .error .syntaxError          -- './2.'  '1./.'
+    else if d.2 ≠ [] then .error .unmodelled
+    else if natOfDigits d.1 = 0 then .error .zeroDivision
+    else .ok ((natOfDigits n.1 : Nat) / (natOfDigits d.1 : Nat))
+  | _ => .error .unmodelled
+
+/-- `eval(string.replace('/', './') + '.')` for `signs digits / digits` (unary signs are applied one by one) -/
+def evalFrac : List Char → Except Err Rat
+  | '+' :: r => evalFrac r
+  | '-' :: r => (evalFrac r).map fun x => -x
+  | s => evalFracUnsigned s
+
+/-- `_float`: `float(string)`, on ValueError the fraction through `eval`, otherwise `None` -/
+def floatModel (s : List Char) : Except Err Rat :=
+  match pyFloat s with
+  | some r => .ok r
+  | none => if '/' ∈ s then evalFrac s else .error .noneTranslation
+
+/-! ### Model: `_parse_line`, `__init__` -/
+
+abbrev Coef := Int × Int × Int
+
+/-- `_parse_line`: partition on X, Y, Z in this order; what is left is the translation -/
+def parseComp (symm : List Char) : Except Err (Coef × Rat) :=
+  let s0 := normalise symm
+  let px := partitionModel s0 'X'
+  let py := partitionModel px.2 'Y'
+  let pz := partitionModel py.2 'Z'
+  if pz.2 = [] then .ok ((px.1, py.1, pz.1), 0)
+  else (floatModel pz.2).map fun t => ((px.1, py.1, pz.1), t)
+
+/-- one row of an operator: `matrix[i, 0..2]` and `trans[i]` -/
+structure Row where
+  c : Coef
+  t : Rat
+deriving DecidableEq, Repr
+
+def Row.ofPair (p : Coef × Rat) : Row := ⟨p.1, p.2⟩
+
+/-- `SymmetryElement(symms)` (not centric): one row per component string -/
+def parseOp : List (List Char) → Except Err (List Row)
+  | [] => .ok []
+  | s :: r =>
+    match parseComp s with
+    | .error e => .error e
+    | .ok p => match parseOp r with
+      | .error e => .error e
+      | .ok l => .ok (Row.ofPair p :: l)
+
+/-! ### Model: `to_shelxl` -/
+
+def axisText (m : Int) (letter : Char) : List Char :=
+  if m = 0 then [] else if m < 0 then ['-', letter] else ['+', letter]
+
+/-- one row of `to_shelxl`: `str(trans)` unless it is zero, then the signed letters of the non-zero entries -/
+def rowText (fmt : Rat → List Char) (r : Row) : List Char :=
+  (if r.t = 0 then [] else fmt r.t) ++ axisText r.c.1 'X' ++ axisText r.c.2.1 'Y' ++ axisText r.c.2.2 'Z'
+
+def joinCommaBlank : List (List Char) → List Char
+  | [] => []
+  | [a] => a
+  | a :: r => a ++ [',', ' '] ++ joinCommaBlank r
+
+/-- `to_shelxl`: `', '.join(lines)` -/
+def toShelxl (fmt : Rat → List Char) (op : List Row) : List Char :=
+  joinCommaBlank (op.map (rowText fmt))
+
+/-- `str.split(',')` -/
+def splitCommaAux : List Char → List Char → List (List Char)
+  | [], cur => [cur.reverse]
+  | c :: t, cur => if c = ',' then cur.reverse :: splitCommaAux t [] else splitCommaAux t (c :: cur)
+
+def splitComma (s : List Char) : List (List Char) := splitCommaAux s []
+
+/-- digits of a natural number, most significant first (`str(int)`) -/
+def natDigits (n : Nat) : List Nat :=
+  if _h : n < 10 then [n] else natDigits (n / 10) ++ [n % 10]
+termination_by n
+decreasing_by omega
+
+def digitChar (d : Nat) : Char := Char.ofNat (48 + d)
+
+/-- the decimals of `r ∈ [0,1)` until they end (`fuel` bounds their number) -/
+def fracDigits : Nat → Rat → List Nat
+  | 0, _ => []
+  | fuel + 1, r => if r = 0 then [] else
+      let d := (r * 10).floor.toNat
+      d :: fracDigits fuel (r * 10 - d)
+
+/-- `str(float)` of a number with a short finite decimal expansion (`0.5`, `-0.25`, `1.0`, `1.75`):
+    CPython's shortest `repr` is then the exact expansion, with at least one decimal.
+    (Not exponent notation: valid for 1e-4 ≤ |x| < 1e16; thirds and sixths are not in this domain.) -/
+def fmtDec (x : Rat) : List Char :=
+  let a := if x < 0 then -x else x
+  let ip := a.floor.toNat
+  let fd := fracDigits 40 (a - ip)
+  (if x < 0 then ['-'] else []) ++ (natDigits ip).map digitChar ++ ['.'] ++
+    (if fd = [] then ['0'] else fd.map digitChar)
+
+/-! ### Model: `__eq__` (repaired: translations compared modulo 1 with a tolerance) -/
+
+/-- Python `round(x)`: nearest integer, ties to even -/
+def pyRound (x : Rat) : Int :=
+  let f := x.floor
+  let r := x - f
+  if r < 1/2 then f else if r > 1/2 then f + 1 else if f % 2 = 0 then f else f + 1
+
+/-- the tolerance written in the repaired `__eq__` -/
+def tolPy : Rat := 1 / 1000000000
+
+/-- `abs(d - round(d)) < tol` -/
+def nearInt (tol d : Rat) : Bool :=
+  let e := d - pyRound d
+  (if e < 0 then -e else e) < tol
+
+structure Op where
+  r0 : Row
+  r1 : Row
+  r2 : Row
+deriving DecidableEq, Repr
+
+def Op.rows (o : Op) : List Row := [o.r0, o.r1, o.r2]
+
+/-- `__eq__`: same matrix, and every translation difference is within `tol` of a whole number -/
+def eqModel (tol : Rat) (a b : Op) : Bool :=
+  (a.r0.c = b.r0.c ∧ a.r1.c = b.r1.c ∧ a.r2.c = b.r2.c) ∧
+  nearInt tol (a.r0.t - b.r0.t) ∧ nearInt tol (a.r1.t - b.r1.t) ∧ nearInt tol (a.r2.t - b.r2.t)
+
+/-! ### Model: the SYMM card (`line.split()`, `''.join(spline[1:]).split(',')`) -/
+
+/-- blanks of `str.split()` that can occur inside one line -/
+def isWs (c : Char) : Bool := c = ' ' ∨ c = '\t'
+
+def splitWsAux : List Char → List Char → List (List Char)
+  | [], cur => if cur = [] then [] else [cur.reverse]
+  | c :: t, cur =>
+    if isWs c then (if cur = [] then splitWsAux t [] else cur.reverse :: splitWsAux t [])
+    else splitWsAux t (c :: cur)
+
+/-- `line.split()` -/
+def splitWs (s : List Char) : List (List Char) := splitWsAux s []
+
+/-- `SYMM._parse_line(spline)`: `''.join(spline[1:]).split(',')` -/
+def symmCard (line : List Char) : List (List Char) :=
+  splitComma (splitWs line).tail.flatten
+
+/-! ### Specification -/
+
+inductive Axis | x | y | z
+deriving DecidableEq, Repr
+
+/-- how a sign is written: not at all, `+`, `-` -/
+inductive Sign | none | plus | minus
+deriving DecidableEq, Repr
+
+abbrev Digit := Fin 10
+
+/-- a translation as written: `n/d`, an integer, or a decimal `ip.fp` (either side of the point may be empty) -/
+inductive Numeral
+  | frac (n d : List Digit)
+  | int (ip : List Digit)
+  | dec (ip fp : List Digit)
+deriving DecidableEq, Repr
+
+/-- a signed axis letter, or a signed translation -/
+inductive Item
+  | term (s : Sign) (a : Axis)
+  | num (s : Sign) (v : Numeral)
+deriving DecidableEq, Repr
+
+/-- A component of an operator is a sequence of items, e.g. `-Y+X+1/2`, `0.25-Z`, `X+1/2-Y`.
+    SHELXL writes a sign in front of every item but the first; the sign is optional here everywhere. -/
+abbrev Component := List Item
+
+def Axis.char : Axis → Char
+  | .x => 'X' | .y => 'Y' | .z => 'Z'
+
+def Sign.chars : Sign → List Char
+  | .none => [] | .plus => ['+'] | .minus => ['-']
+
+def Sign.toInt : Sign → Int
+  | .minus => -1 | _ => 1
+
+def digitsChars (ds : List Digit) : List Char := ds.map fun d => digitChar d.val
+
+/-- positional value of a digit string -/
+def digitsVal (ds : List Digit) : Nat := ds.foldl (fun a d => 10 * a + d.val) 0
+
+def Numeral.chars : Numeral → List Char
+  | .frac n d => digitsChars n ++ ['/'] ++ digitsChars d
+  | .int ip => digitsChars ip
+  | .dec ip fp => digitsChars ip ++ ['.'] ++ digitsChars fp
+
+/-- the number a numeral denotes -/
+def Numeral.value : Numeral → Rat
+  | .frac n d => (digitsVal n : Rat) / (digitsVal d : Rat)
+  | .int ip => (digitsVal ip : Rat)
+  | .dec ip fp => (digitsVal (ip ++ fp) : Rat) / (10 : Rat) ^ fp.length
+
+/-- digits present where they must be, denominator not zero -/
+def Numeral.wf : Numeral → Bool
+  | .frac n d => n ≠ [] ∧ d ≠ [] ∧ digitsVal d ≠ 0
+  | .int ip => ip ≠ []
+  | .dec ip fp => ip ≠ [] ∨ fp ≠ []
+
+def Item.chars : Item → List Char
+  | .term s a => s.chars ++ [a.char]
+  | .num s v => s.chars ++ v.chars
+
+/-- the text of a component in capital letters without blanks -/
+def print : Component → List Char
+  | [] => []
+  | i :: r => i.chars ++ print r
+
+/-- coefficient of axis `a`: the sum of the signs of its terms (0 if there is none) -/
+def coef (a : Axis) : Component → Int
+  | [] => 0
+  | .term s b :: r => (if b = a then s.toInt else 0) + coef a r
+  | .num _ _ :: r => coef a r
+
+/-- sum of the signed translations -/
+def transOf : Component → Rat
+  | [] => 0
+  | .term _ _ :: r => transOf r
+  | .num s v :: r => (s.toInt : Rat) * v.value + transOf r
+
+/-- what a component denotes — the sum of what its items denote: one row of the rotation matrix and one translation -/
+def denote (c : Component) : Coef × Rat := ((coef .x c, coef .y c, coef .z c), transOf c)
+
+def axisCount (a : Axis) : Component → Nat
+  | [] => 0
+  | .term _ b :: r => (if b = a then 1 else 0) + axisCount a r
+  | .num _ _ :: r => axisCount a r
+
+def numCount : Component → Nat
+  | [] => 0
+  | .term _ _ :: r => numCount r
+  | .num _ _ :: r => 1 + numCount r
+
+def allWf : Component → Bool
+  | [] => true
+  | .term _ _ :: r => allWf r
+  | .num _ v :: r => v.wf && allWf r
+
+/-- every axis at most once, at most one translation, numerals well formed -/
+def Valid (c : Component) : Bool :=
+  axisCount .x c ≤ 1 ∧ axisCount .y c ≤ 1 ∧ axisCount .z c ≤ 1 ∧ numCount c ≤ 1 ∧ allWf c
+
+/-- SHELXL's own spelling: a sign in front of every item except possibly the first -/
+def signedTail : Component → Bool
+  | [] => true
+  | .term s _ :: r => s ≠ .none && signedTail r
+  | .num s _ :: r => s ≠ .none && signedTail r
+
+def Shelxl (c : Component) : Bool :=
+  Valid c && (match c with | [] => true | _ :: r => signedTail r)
+
+/-- `Relayout s t`: `t` is `s` with blanks inserted anywhere and any letter possibly in lower case -/
+inductive Relayout : List Char → List Char → Prop
+  | nil : Relayout [] []
+  | blank {s t} : Relayout s t → Relayout s (' ' :: t)
+  | same {s t} (c : Char) : Relayout s t → Relayout (c :: s) (c :: t)
+  | lower {s t} (c : Char) : Relayout s t → Relayout (c :: s) (c.toLower :: t)
+
+/-- two operators agree modulo whole lattice translations -/
+def LatticeEq (a b : Op) : Prop :=
+  (a.r0.c = b.r0.c ∧ a.r1.c = b.r1.c ∧ a.r2.c = b.r2.c) ∧
+  (∃ k : Int, a.r0.t - b.r0.t = k) ∧ (∃ k : Int, a.r1.t - b.r1.t = k) ∧ (∃ k : Int, a.r2.t - b.r2.t = k)
+
+/-- executable form of `LatticeEq` (the difference has denominator 1) -/
+def latticeEqB (a b : Op) : Bool :=
+  (a.r0.c = b.r0.c ∧ a.r1.c = b.r1.c ∧ a.r2.c = b.r2.c) ∧
+  (a.r0.t - b.r0.t).den = 1 ∧ (a.r1.t - b.r1.t).den = 1 ∧ (a.r2.t - b.r2.t).den = 1
+
+/-- the row an operator line denotes, as a `Row` -/
+def denoteRow (c : Component) : Row := Row.ofPair (denote c)
 
 end Shelx.C10
